@@ -11,6 +11,10 @@ import GeoModel.Gen.Masks
 import GeoModel.Gen.Enums
 import GeoProofs.Lemmas.SegmentSpec
 import GeoProofs.Lemmas.LocateLemmas
+import GeoProofs.Lemmas.C02QContains
+import GeoProofs.Lemmas.C02QWinding
+import GeoProofs.Lemmas.C02QHoles
+import GeoProofs.Lemmas.C02QPerturb
 
 namespace Geo.Proofs.C02
 open Geo
@@ -413,5 +417,196 @@ theorem rect_kernels_eq_source :
     (∀ a b c d, rectContainsRect a b c d = Gen.rectContainsRect a b c d) :=
   ⟨Geo.Proofs.GenKernel.rectCoord_eq, Geo.Proofs.GenKernel.rectRect_eq,
    Geo.Proofs.GenKernel.rectContainsCoord_eq, Geo.Proofs.GenKernel.rectContainsRect_eq⟩
+
+/-! ### C02Q: validity discharges H1; LineString / MultiLineString `contains(Point)`; Rect × Rect and
+Line × Line `contains` as point-set statements -/
+
+/-- [T] the specification's winding number is constant along a segment `m p` that has no point in
+common with any edge of a closed ring (per edge the two increments differ by a potential difference
+`φ(start) − φ(end)`, which telescopes along the closed ring). -/
+theorem windingE_const (ring : List Pt) (hc : ring.head? = ring.getLast?) (m p : Pt)
+    (hdis : ∀ s ∈ segs ring, ¬ ∃ x, Geo.Proofs.Kernel.SegMem x s.1 s.2 ∧ Geo.Proofs.Kernel.SegMem x m p) :
+    windingE (EPt.ofPt m) ring = windingE (EPt.ofPt p) ring :=
+  Geo.Proofs.C02Q.windingE_const ring hc m p hdis
+
+example : windingE (EPt.ofPt ⟨1, 1⟩) [⟨0, 0⟩, ⟨4, 0⟩, ⟨0, 4⟩, ⟨0, 0⟩] =
+    windingE (EPt.ofPt ⟨2, 1⟩) [⟨0, 0⟩, ⟨4, 0⟩, ⟨0, 4⟩, ⟨0, 0⟩] := by decide +kernel
+
+/-- [T] H1 of `coordPos_polygon_eq_locate_partial` from validity: in an OGC-valid polygon
+(`polyValid`: simple rings, `BE = F` for every hole against the shell) no point of a hole ring is
+`Outside` the shell ring for `coord_pos_relative_to_ring` — vertices of the arrangement and all the
+points strictly inside the elementary sub-segments of the hole edges. -/
+theorem hole_ring_in_shell (poly : Poly) (hv : polyValid poly = true) (h : List Pt) (hh : h ∈ poly.ints)
+    (p : Pt) (hp : onAnySeg p (segs h) = true) : ringPos p poly.ext ≠ .outside :=
+  Geo.Proofs.C02Q.hole_ring_in_shell hv hh hp
+
+example : ringPos ⟨4, 3⟩ [⟨0, 0⟩, ⟨10, 0⟩, ⟨10, 10⟩, ⟨0, 10⟩, ⟨0, 0⟩] ≠ .outside :=
+  hole_ring_in_shell ⟨[⟨0, 0⟩, ⟨10, 0⟩, ⟨10, 10⟩, ⟨0, 10⟩, ⟨0, 0⟩],
+    [[⟨2, 2⟩, ⟨4, 2⟩, ⟨4, 4⟩, ⟨2, 4⟩, ⟨2, 2⟩]]⟩ (by decide +kernel)
+    [⟨2, 2⟩, ⟨4, 2⟩, ⟨4, 4⟩, ⟨2, 4⟩, ⟨2, 2⟩] (by simp) ⟨4, 3⟩ (by decide +kernel)
+
+/-- [T] Polygon, OGC-valid (`polyValid`; closed rings and H1 are consequences), at a query point
+`p` satisfying H2: if `p` is strictly inside a hole it is on no hole ring. Full statement (no H2):
+needs "`II = F` between two holes ⇒ no boundary point of one is interior to the other", which goes
+through the *face* atoms (points perturbed by a symbolic infinitesimal) of the specification; not
+proved. -/
+theorem coordPos_polygon_eq_locate_valid_partial (poly : Poly) (p : Pt) (hv : polyValid poly = true)
+    (H2 : ∀ h ∈ poly.ints, ∀ h' ∈ poly.ints, ringPos p h = .inside → onAnySeg p (segs h') = false) :
+    coordPos (.polygon poly) p = locate (.polygon poly) p :=
+  Geo.Proofs.C02Q.coordPos_polygon_valid poly p hv H2
+
+example : coordPos (.polygon ⟨[⟨0, 0⟩, ⟨10, 0⟩, ⟨10, 10⟩, ⟨0, 10⟩, ⟨0, 0⟩],
+      [[⟨2, 2⟩, ⟨4, 2⟩, ⟨4, 4⟩, ⟨2, 4⟩, ⟨2, 2⟩]]⟩) ⟨4, 3⟩ =
+    locate (.polygon ⟨[⟨0, 0⟩, ⟨10, 0⟩, ⟨10, 10⟩, ⟨0, 10⟩, ⟨0, 0⟩],
+      [[⟨2, 2⟩, ⟨4, 2⟩, ⟨4, 4⟩, ⟨2, 4⟩, ⟨2, 2⟩]]⟩) ⟨4, 3⟩ :=
+  coordPos_polygon_eq_locate_valid_partial _ _ (by decide +kernel) (by decide +kernel)
+
+/-- [T] … in particular an OGC-valid polygon with at most one hole needs no hypothesis at all. -/
+theorem coordPos_polygon_eq_locate_one_hole (poly : Poly) (p : Pt) (hv : polyValid poly = true)
+    (h1 : poly.ints.length ≤ 1) : coordPos (.polygon poly) p = locate (.polygon poly) p := by
+  apply coordPos_polygon_eq_locate_valid_partial poly p hv
+  intro h hh h' hh' hin
+  have hok := (Geo.Proofs.C02Q.polyValid_unpack hv).2.1
+  have e : h' = h := by
+    match hi : poly.ints, h1 with
+    | [], _ => rw [hi] at hh; cases hh
+    | [x], _ =>
+      rw [hi] at hh hh'
+      rw [List.mem_singleton.mp hh, List.mem_singleton.mp hh']
+  subst e
+  rw [Loc.ringPos_eq_ringLoc p h' (Geo.Proofs.C02Q.ringOK_of_simple (hok h' hh)), Loc.ringLoc_inside_iff] at hin
+  exact hin.1
+
+example : coordPos (.polygon ⟨[⟨0, 0⟩, ⟨10, 0⟩, ⟨10, 10⟩, ⟨0, 10⟩, ⟨0, 0⟩],
+      [[⟨2, 2⟩, ⟨4, 2⟩, ⟨4, 4⟩, ⟨2, 4⟩, ⟨2, 2⟩]]⟩) ⟨3, 3⟩ =
+    locate (.polygon ⟨[⟨0, 0⟩, ⟨10, 0⟩, ⟨10, 10⟩, ⟨0, 10⟩, ⟨0, 0⟩],
+      [[⟨2, 2⟩, ⟨4, 2⟩, ⟨4, 4⟩, ⟨2, 4⟩, ⟨2, 2⟩]]⟩) ⟨3, 3⟩ :=
+  coordPos_polygon_eq_locate_one_hole _ _ (by decide +kernel) (by decide)
+
+/-- [T] Polygon × Point for an OGC-valid polygon, same hypothesis H2. -/
+theorem containsM_polygon_point_valid_partial (poly : Poly) (p : Pt) (hv : polyValid poly = true)
+    (H2 : ∀ h ∈ poly.ints, ∀ h' ∈ poly.ints, ringPos p h = .inside → onAnySeg p (segs h') = false) :
+    containsM (.polygon poly) (.point p) = Gen.isContains (relateSpec (.polygon poly) (.point p)) :=
+  Loc.containsM_polygon_point poly p (coordPos_polygon_eq_locate_valid_partial poly p hv H2)
+
+example : containsM (.polygon ⟨[⟨0, 0⟩, ⟨10, 0⟩, ⟨10, 10⟩, ⟨0, 10⟩, ⟨0, 0⟩],
+      [[⟨2, 2⟩, ⟨4, 2⟩, ⟨4, 4⟩, ⟨2, 4⟩, ⟨2, 2⟩]]⟩) (.point ⟨1, 1⟩) =
+    Gen.isContains (relateSpec (.polygon ⟨[⟨0, 0⟩, ⟨10, 0⟩, ⟨10, 10⟩, ⟨0, 10⟩, ⟨0, 0⟩],
+      [[⟨2, 2⟩, ⟨4, 2⟩, ⟨4, 4⟩, ⟨2, 4⟩, ⟨2, 2⟩]]⟩) (.point ⟨1, 1⟩)) :=
+  containsM_polygon_point_valid_partial _ _ (by decide +kernel) (by decide +kernel)
+
+/-- [T] `LineString: Contains<Coord>` with at least two coordinates (open or closed, simple or
+not; the `enumerate()` index argument): on some segment and not an end point of the open curve —
+the mask on the specification. Full statement (any length): false for a single coordinate, see
+`lsContainsCoord_single_witness`. -/
+theorem containsM_lineString_point_partial (cs : List Pt) (c : Pt) (h2 : 2 ≤ cs.length) :
+    containsM (.lineString cs) (.point c) = Gen.isContains (relateSpec (.lineString cs) (.point c)) := by
+  rw [isContains_relate_point]
+  exact Geo.Proofs.C02Q.containsM_lineString_point cs c h2
+
+example : containsM (.lineString [⟨0, 0⟩, ⟨2, 0⟩, ⟨2, 2⟩]) (.point ⟨2, 0⟩) =
+    Gen.isContains (relateSpec (.lineString [⟨0, 0⟩, ⟨2, 0⟩, ⟨2, 2⟩]) (.point ⟨2, 0⟩)) :=
+  containsM_lineString_point_partial _ _ (by simp)
+
+/-- [T] witness for the excluded class: a one-coordinate LineString (invalid) "contains" its
+coordinate, the specification locates every point outside it. -/
+theorem lsContainsCoord_single_witness :
+    containsM (.lineString [⟨1, 1⟩]) (.point ⟨1, 1⟩) = true ∧
+    locate (.lineString [⟨1, 1⟩]) ⟨1, 1⟩ = .outside := by
+  decide +kernel
+
+/-- [T] the fixed `MultiLineString: Contains<Point>` (mod-2 rule over the open members), for every
+member list: the mask on the specification. -/
+theorem containsM_mls_point (ls : List (List Pt)) (c : Pt) :
+    containsM (.multiLineString ls) (.point c) =
+      Gen.isContains (relateSpec (.multiLineString ls) (.point c)) := by
+  rw [isContains_relate_point]
+  exact Geo.Proofs.C02Q.containsM_mls_point ls c
+
+/-- [T] `Rect: Contains<Rect>` (inner rect with `min ≤ max`, as `Rect::new` guarantees): every
+point of the inner closed rect is a point of the outer closed rect. -/
+theorem rectContainsRect_iff (amn amx bmn bmx : Pt) (hx : bmn.x ≤ bmx.x) (hy : bmn.y ≤ bmx.y) :
+    rectContainsRect amn amx bmn bmx = true ↔
+      ∀ p, rectCoord bmn bmx p = true → rectCoord amn amx p = true :=
+  Geo.Proofs.C02Q.rectContainsRect_iff amn amx bmn bmx hx hy
+
+example : rectContainsRect ⟨0, 0⟩ ⟨4, 4⟩ ⟨1, 1⟩ ⟨4, 2⟩ = true :=
+  (rectContainsRect_iff _ _ _ _ (by norm_num) (by norm_num)).mpr (fun p h => by
+    simp only [rectCoord, Bool.and_eq_true, decide_eq_true_eq] at h ⊢
+    obtain ⟨⟨⟨h1, h2⟩, h3⟩, h4⟩ := h
+    exact ⟨⟨⟨by linarith, by linarith⟩, by linarith⟩, by linarith⟩)
+
+/-- [T] … which is not the DE-9IM mask `T*****FF*` when the operands are degenerate (candidate
+finding K7): a zero-width Rect is contained in itself as a point set, but its interior is empty, so
+`II = F`. -/
+theorem rectContainsRect_degenerate_witness :
+    containsM (.rect ⟨0, 0⟩ ⟨0, 2⟩) (.rect ⟨0, 0⟩ ⟨0, 2⟩) = true ∧
+    Gen.isContains (relateSpec (.rect ⟨0, 0⟩ ⟨0, 2⟩) (.rect ⟨0, 0⟩ ⟨0, 2⟩)) = false := by
+  decide +kernel
+
+/-- [T] `Line: Contains<Line>`, inner line with two different end points: both end points lie on
+the outer segment … -/
+theorem lineContainsLine_iff_ends (a b c d : Pt) (hcd : c ≠ d) :
+    lineContainsLine a b c d = true ↔
+      Geo.Proofs.Kernel.SegMem c a b ∧ Geo.Proofs.Kernel.SegMem d a b :=
+  Geo.Proofs.C02Q.lineContainsLine_iff_ends a b c d hcd
+
+/-- [T] … equivalently (convexity of the closed segment) every point of the inner segment is a point
+of the outer one. -/
+theorem lineContainsLine_iff_subset (a b c d : Pt) (hcd : c ≠ d) :
+    lineContainsLine a b c d = true ↔
+      ∀ p, Geo.Proofs.Kernel.SegMem p c d → Geo.Proofs.Kernel.SegMem p a b :=
+  Geo.Proofs.C02Q.lineContainsLine_iff_subset a b c d hcd
+
+example : lineContainsLine ⟨0, 0⟩ ⟨4, 4⟩ ⟨1, 1⟩ ⟨4, 4⟩ = true :=
+  (lineContainsLine_iff_ends _ _ _ _ (by simp)).mpr
+    ⟨⟨1/4, by norm_num, by norm_num, by norm_num, by norm_num⟩,
+     ⟨1, by norm_num, by norm_num, by norm_num, by norm_num⟩⟩
+
+/-- [T] `Line: Contains<Line>`, inner line a single point: the point is located in the interior of
+the outer line (its end points are boundary when the outer line is not degenerate). -/
+theorem lineContainsLine_degenerate (a b c : Pt) :
+    lineContainsLine a b c c = (locate (.line a b) c == .inside) :=
+  Geo.Proofs.C02Q.lineContainsLine_degenerate a b c
+
+/-- [T] off a closed ring, the winding number of the point perturbed by the symbolic infinitesimal
+in any direction (the face samples of the DE-9IM specification) is the winding number of the point
+(the half-open conventions differ per edge by a potential difference). First half of what H2 needs
+from validity; the second half ("the winding number jumps by one across an edge of a simple ring")
+is not proved. -/
+theorem windingE_perturb (ring : List Pt) (hc : ring.head? = ring.getLast?) (m : Pt) (x1 y1 : Rat)
+    (hoff : onAnySeg m (segs ring) = false) :
+    windingE ⟨m.x, x1, m.y, y1⟩ ring = windingE (EPt.ofPt m) ring :=
+  Geo.Proofs.C02Q.windingE_perturb ring hc m x1 y1 hoff
+
+example : windingE ⟨1, 2, 1, -5⟩ [⟨0, 0⟩, ⟨4, 0⟩, ⟨0, 4⟩, ⟨0, 0⟩] =
+    windingE (EPt.ofPt ⟨1, 1⟩) [⟨0, 0⟩, ⟨4, 0⟩, ⟨0, 4⟩, ⟨0, 0⟩] :=
+  windingE_perturb _ rfl ⟨1, 1⟩ 2 (-5) (by decide +kernel)
+
+/-- [T] `Intersects`, Polygon × Point for an OGC-valid polygon (hypothesis H2 as above). -/
+theorem intersectsM_polygon_point_valid_partial (poly : Poly) (p : Pt) (hv : polyValid poly = true)
+    (H2 : ∀ h ∈ poly.ints, ∀ h' ∈ poly.ints, ringPos p h = .inside → onAnySeg p (segs h') = false) :
+    intersectsM (.polygon poly) (.point p) = Gen.isIntersects (relateSpec (.polygon poly) (.point p)) :=
+  Loc.intersectsM_polygon_point poly p (coordPos_polygon_eq_locate_valid_partial poly p hv H2)
+
+example : intersectsM (.polygon ⟨[⟨0, 0⟩, ⟨10, 0⟩, ⟨10, 10⟩, ⟨0, 10⟩, ⟨0, 0⟩],
+      [[⟨2, 2⟩, ⟨4, 2⟩, ⟨4, 4⟩, ⟨2, 4⟩, ⟨2, 2⟩]]⟩) (.point ⟨4, 3⟩) =
+    Gen.isIntersects (relateSpec (.polygon ⟨[⟨0, 0⟩, ⟨10, 0⟩, ⟨10, 10⟩, ⟨0, 10⟩, ⟨0, 0⟩],
+      [[⟨2, 2⟩, ⟨4, 2⟩, ⟨4, 4⟩, ⟨2, 4⟩, ⟨2, 2⟩]]⟩) (.point ⟨4, 3⟩)) :=
+  intersectsM_polygon_point_valid_partial _ _ (by decide +kernel) (by decide +kernel)
+
+/-- [T] `Point.is_within(LineString)` (≥ 2 coordinates) and `Point.is_within(MultiLineString)` are
+their own mask `T*F**F***` on the specification. -/
+theorem withinM_point_lineString_partial (cs : List Pt) (c : Pt) (h2 : 2 ≤ cs.length) :
+    withinM (.point c) (.lineString cs) = Gen.isWithin (relateSpec (.point c) (.lineString cs)) :=
+  withinM_point_of_contains _ _ (containsM_lineString_point_partial cs c h2)
+
+theorem withinM_point_mls (ls : List (List Pt)) (c : Pt) :
+    withinM (.point c) (.multiLineString ls) = Gen.isWithin (relateSpec (.point c) (.multiLineString ls)) :=
+  withinM_point_of_contains _ _ (containsM_mls_point ls c)
+
+example : withinM (.point ⟨1, 0⟩) (.lineString [⟨0, 0⟩, ⟨2, 0⟩]) =
+    Gen.isWithin (relateSpec (.point ⟨1, 0⟩) (.lineString [⟨0, 0⟩, ⟨2, 0⟩])) :=
+  withinM_point_lineString_partial _ _ (by simp)
 
 end Geo.Proofs.C02
